@@ -499,7 +499,9 @@ func (s *OS[T, P]) Sweep(dims []Dim, bg spec.Assignment, preds Pred, workers int
 				actual, rerr := s.ReadAll(o)
 				if rerr != nil {
 					if preds&PredWellFormed != 0 {
-						s.report(a, nil, preds, "ill-formed", rerr.Error())
+						// an object reached through legal Set calls that does not read back at all: reported with the
+						// exact Set path of the sweep (canonical build of the background, then the odometer steps)
+						s.reportPath(sweepPath(ver, dims, bg, lo, idx), preds, rerr.Error())
 					}
 					continue
 				}
@@ -595,6 +597,63 @@ func (s *OS[T, P]) Sweep(dims []Dim, bg spec.Assignment, preds Pred, workers int
 		s.R.Transitions.Add(trans)
 		s.R.Traces.Add(traces)
 	})
+}
+
+// sweepPath: the Set sequence by which phase 1 of Sweep reaches state idx of the chunk starting at lo.
+func sweepPath(ver *spec.Version, dims []Dim, bg spec.Assignment, lo, idx int) [][]string {
+	var ops [][]string
+	for mi, m := range ver.Metrics {
+		ops = append(ops, []string{"Set", m.Abv, m.Values[bg[mi]]})
+	}
+	dg := make([]int, len(dims))
+	x := lo
+	for j, d := range dims {
+		dg[j] = x % len(d.Vals)
+		x /= len(d.Vals)
+		m := ver.Metrics[d.M]
+		ops = append(ops, []string{"Set", m.Abv, m.Values[d.Vals[dg[j]]]})
+	}
+	for i := lo; i < idx; i++ {
+		for j := 0; j < len(dims); j++ {
+			dg[j]++
+			if dg[j] == len(dims[j].Vals) {
+				dg[j] = 0
+			}
+			m := ver.Metrics[dims[j].M]
+			ops = append(ops, []string{"Set", m.Abv, m.Values[dims[j].Vals[dg[j]]]})
+			if dg[j] != 0 {
+				break
+			}
+		}
+	}
+	return ops
+}
+
+// reportPath reports a violation found on an explicit Set path (confirmed by re-executing that path).
+func (s *OS[T, P]) reportPath(ops [][]string, preds Pred, fastObs string) {
+	ver := s.I.Ver
+	var key, exp, obs string
+	re := func() bool {
+		key, exp, obs = s.RunOps("zero", ops, preds)
+		return key != ""
+	}
+	if !re() {
+		s.R.Note("fast/slow disagreement (not reported): v%s %s", ver.Name, fastObs)
+		return
+	}
+	// shorten: keep the canonical build and only the last k steps, for growing k
+	nb := len(ver.Metrics)
+	for k := 1; k < len(ops)-nb; k *= 2 {
+		cand := append(append([][]string(nil), ops[:nb]...), ops[len(ops)-k:]...)
+		if k2, _, _ := s.RunOps("zero", cand, preds); k2 == key {
+			ops = cand
+			break
+		}
+	}
+	c := Case{Kind: "obj-ops", Key: "v" + ver.Name + "/" + key, Expected: exp, Observed: obs,
+		Args: map[string]any{"version": ver.Name, "start": "zero", "ops": ops, "preds": uint(preds)}}
+	c.GoTest = goTestForOps(ver, ops)
+	s.R.Violation(c, func() bool { k2, _, _ := s.RunOps("zero", ops, preds); return k2 != "" })
 }
 
 func (s *OS[T, P]) reportGet(a spec.Assignment, abv, obs string) {
